@@ -654,6 +654,7 @@ type srcFunc struct {
 	file    *ast.File
 	fset    *token.FileSet
 	imports map[string]string
+	lemma   bool // a ghost function written in a "go:" block of a contract file
 }
 
 func exprString(fset *token.FileSet, e ast.Expr) string {
@@ -866,6 +867,22 @@ func (ps *PkgSpec) generate(trustedDir string) error {
 	for _, l := range ps.RawGo {
 		mainBody.WriteString(l + "\n")
 	}
+	// lemma functions: ghost Go functions written in a "go:" block of the contract file. A "func NAME"
+	// block may put them under contract like a /repo function; they live in the main synthetic file.
+	{
+		fset := token.NewFileSet()
+		if f, err := parser.ParseFile(fset, "zz_verif_spec_gen.go", "package p\n"+strings.Join(ps.RawGo, "\n")+"\n", parser.SkipObjectResolution); err == nil {
+			for _, d := range f.Decls {
+				if fd, ok := d.(*ast.FuncDecl); ok && fd.Body != nil && fd.Recv == nil {
+					if _, dup := srcs[fd.Name.Name]; !dup {
+						srcs[fd.Name.Name] = &srcFunc{fset: fset, file: f, decl: fd, imports: map[string]string{}, lemma: true}
+					}
+				}
+			}
+		} else if len(ps.RawGo) > 0 {
+			return fmt.Errorf("%s: cannot parse the ghost Go code of the contract files: %v", ps.Dir, err)
+		}
+	}
 	// spec functions of /repo functions go to one synthetic file per source file, so that the import
 	// names used in the copied signatures mean what they mean in that file
 	type genFile struct {
@@ -911,6 +928,9 @@ func (ps *PkgSpec) generate(trustedDir string) error {
 				return fmt.Errorf("%s:%d: function %s not found in %s", fs.File, fs.Line, fs.Key, ps.Dir)
 			}
 			fname := filepath.Base(sf.fset.Position(sf.file.Pos()).Filename)
+			if sf.lemma {
+				fname = "lemmas.go" // spec functions of lemma functions: a file of their own with the contract imports
+			}
 			gf := perFile[fname]
 			if gf == nil {
 				gf = &genFile{imports: map[string]string{}}
